@@ -165,7 +165,7 @@ def run_history(actions, workdir: Path) -> dict:
             _shared_lists(cfgs[a["c"]][0], shared)      # the caller's lists exist before the call
         ev_rec["argsb"] = _arg_objects(shared)
         try:
-            with quiet():
+            with quiet(), drive.time_limit(180):
                 if a["act"] == "new_evaluator":
                     cfg, groups = cfgs[a["c"]]
                     evs.append(_make(cfg, groups() if groups else None, a["sgt"], a["src"], shared))
